@@ -56,7 +56,7 @@ def _single_faults(name, layout):
     for i in range(n):
         out += [("drop", i), ("dup", i), ("dup_other_value", i), ("relabel", i), ("blank_nan", i), ("blank_none", i), ("extra_row", i)]
         if i in (0, n - 1):
-            out += [("relabel_falsy", i), ("extra_row_falsy", i)]
+            out += [("relabel_falsy", i), ("extra_row_falsy", i), ("extra_row_blank", i)]  # (blank: a row to be ignored that has no value either)
         if any(s[3] is int for s in spec):
             out.append(("dup_retyped", i))  # the same labels once more, the integer-typed one stored as text
     for k, s in enumerate(spec):
@@ -82,7 +82,7 @@ def configs(tier, seed):
                         continue
                     fk = "+".join("_".join(map(str, f)) for f in fs) or "none"
                     out.append(dict(h="faults", op=layout, key=f"faults/{name}/{layout}/{fk}/am={int(am)}/ae={int(ae)}", ds=name, layout=layout, faults=[list(f) for f in fs], am=am, ae=ae))
-                    if layout in ("long_cols", "long_cols_letters") and any(f[0] in ("extra_row", "extra_row_falsy", "dup", "dup_other_value", "dup_retyped") for f in fs) and (len(fs) == 1 or tier == "thorough" or hash(str(fs)) % 3 == 0):
+                    if layout in ("long_cols", "long_cols_letters") and any(f[0] in ("extra_row", "extra_row_falsy", "extra_row_blank", "dup", "dup_other_value", "dup_retyped") for f in fs) and (len(fs) == 1 or tier == "thorough" or hash(str(fs)) % 3 == 0):
                         # the same frame with the row labels pd.concat leaves behind (added rows repeat labels of the table)
                         out.append(dict(h="faults", op=layout + "_concat", key=f"faults/{name}/{layout}/{fk}/am={int(am)}/ae={int(ae)}/rowlabels=concat", ds=name, layout=layout, faults=[list(f) for f in fs], am=am, ae=ae, rowlabels="concat"))
         # two imports in one process over same-named dimensions with other item orders (no state may leak)
@@ -150,6 +150,10 @@ def _build(cfg, w):
                 lab = list(base[f[1]][0])
                 lab[0] = _unknown_item(spec[0], falsy=f[0].endswith("falsy"))
                 base[f[1]] = [tuple(lab), base[f[1]][1]]
+            elif f[0] == "extra_row_blank":
+                lab = list(base[f[1]][0])
+                lab[-1] = _unknown_item(spec[-1])
+                adds.append([tuple(lab), float("nan")])
             elif f[0] in ("extra_row", "extra_row_falsy"):
                 lab = list(base[f[1]][0])
                 lab[-1] = _unknown_item(spec[-1], falsy=f[0].endswith("falsy"))
